@@ -36,6 +36,9 @@ struct Val {
 	vclock::Stamp born;       // position of the constructing thread: a reader must have acquired it (vclock.hpp)
 	Val(uint64_t k, uint64_t g) : key(k), a(g * 0x9E3779B97F4A7C15ull), b(~k), chk((uint32_t)(k ^ (g * 0x9E3779B97F4A7C15ull) ^ 0xC0DEC0DE)), born(vclock::now()) {}
 	bool ok() const { return b == ~key && chk == (uint32_t)(key ^ a ^ 0xC0DEC0DE); }
+	// The destructor changes the object: a value that is destroyed while a reader can still find it is seen as damaged
+	// (the tree leaves the destruction of an erased value to its user, who has to wait for a grace period - the harness does).
+	~Val() { chk = 0xDEADDEAD; b = 0; }
 };
 struct plain_alloc {     // only the writer allocates
 	void *allocate(size_t n) { void *p = malloc(n); memset(p, 0xA5, n); return p; }
